@@ -405,3 +405,148 @@ def same(a, b, tol):
     if a in (INF, -INF) or b in (INF, -INF):
         return False
     return abs(a - b) <= 1e-12 + 1e-9 * max(abs(a), abs(b))
+
+
+# --------------------------------------------------------------------------
+# R-ct: dense-time robustness on a rational grid
+# --------------------------------------------------------------------------
+#
+# All time stamps are integer multiples of the quantum q and all bounds are
+# integer numbers of cells, so every sub-formula is constant on each cell
+# [k q, (k+1) q).  For t in cell i the closed window [t+a, t+b] meets exactly
+# the cells i+a .. i+b.  Signals are given in cells: var -> list of (k, value)
+# with strictly increasing integer k.  Each signal is held at its last value
+# beyond its last sample ("finitary interpretation").
+
+def total_bounds(f):
+    from .formula import subterms
+    return sum(s[3] for s in subterms(f) if s[0] in ('tun', 'tbin'))
+
+
+def ct_cells(f, sig, ia=None):
+    """Returns (K0, Kend, values) where values[i] is rho(f) on cell K0+i, for the
+    cells K0 .. Kmax + total_bounds + 1.  K0 = common start (all signals must start there),
+    Kend = earliest last sample of the variables used by f (the compared domain is [K0, Kend])."""
+    from .formula import fvars
+    used = fvars(f)
+    starts = set(sig[v][0][0] for v in used)
+    if len(starts) > 1:
+        raise ValueError('signals of one case start together')
+    K0 = starts.pop() if starts else 0
+    Kend = min(sig[v][-1][0] for v in used) if used else K0
+    Kmax = max(sig[v][-1][0] for v in used) if used else K0
+    N = Kmax + total_bounds(f) + 1 - K0 + 1
+    memo = {}
+
+    def var(name):
+        s = sig[name]
+        out = []
+        j = 0
+        for k in range(K0, K0 + N):
+            while j + 1 < len(s) and s[j + 1][0] <= k:
+                j += 1
+            out.append(float(s[j][1]))
+        return out
+
+    def ev(f):
+        if f in memo:
+            return memo[f]
+        out = _ev(f)
+        for v in out:
+            _chk(v)
+        memo[f] = out
+        return out
+
+    def _ev(f):
+        k = f[0]
+        R = range(N)
+        if k == 'var':
+            return var(f[1])
+        if k == 'const':
+            return [float(f[1])] * N
+        if k == 'pred':
+            l = ev(f[2])
+            r = ev(f[3])
+            if ia is not None and _ia_insensitive(f, ia):
+                if ia[0].endswith('vacuity'):
+                    return [0.0 for i in R]
+                return [INF if _sat(f[1], l[i], r[i]) else -INF for i in R]
+            return [_pred(f[1], l[i], r[i]) for i in R]
+        if k == 'un':
+            op = f[1]
+            x = ev(f[2])
+            if op in ('abs', 'neg', 'sqrt', 'exp', 'ln'):
+                return [_arith_un(op, v) for v in x]
+            if op == 'not':
+                return [-v for v in x]
+            if op == 'once':
+                return [max(x[:i + 1]) for i in R]
+            if op == 'historically':
+                return [min(x[:i + 1]) for i in R]
+            if op == 'eventually':
+                return [max(x[i:]) for i in R]
+            if op == 'always':
+                return [min(x[i:]) for i in R]
+            raise ValueError('dense: ' + op)
+        if k == 'bin':
+            op = f[1]
+            l = ev(f[2])
+            r = ev(f[3])
+            if op in ('+', '-', '*', '/', 'pow', 'log'):
+                return [_arith_bin(op, a, b) for a, b in zip(l, r)]
+            if op == 'and':
+                return [min(a, b) for a, b in zip(l, r)]
+            if op == 'or':
+                return [max(a, b) for a, b in zip(l, r)]
+            if op == 'implies':
+                return [max(-a, b) for a, b in zip(l, r)]
+            if op == 'iff':
+                return [-abs(a - b) for a, b in zip(l, r)]
+            if op == 'xor':
+                return [abs(a - b) for a, b in zip(l, r)]
+            if op == 'since':
+                return [_mx(min([r[j]] + l[j:i + 1]) for j in range(0, i + 1)) for i in R]
+            if op == 'until':
+                return [_mx(min([r[j]] + l[i:j + 1]) for j in range(i, N)) for i in R]
+            raise ValueError('dense: ' + op)
+        if k == 'tun':
+            op, a, b = f[1], f[2], f[3]
+            x = ev(f[4])
+            out = []
+            for i in R:
+                if op in ('once', 'historically'):
+                    win = [x[j] for j in range(i - b, i - a + 1) if 0 <= j]
+                else:
+                    win = [x[min(j, N - 1)] for j in range(i + a, i + b + 1)]
+                out.append(_mx(win) if op in ('once', 'eventually') else _mn(win))
+            return out
+        if k == 'tbin':
+            op, a, b = f[1], f[2], f[3]
+            l = ev(f[4])
+            r = ev(f[5])
+            out = []
+            for i in R:
+                if op == 'since':
+                    v = _mx(min([r[j]] + l[j:i + 1]) for j in range(i - b, i - a + 1) if 0 <= j)
+                elif op in ('until', 'unless'):
+                    v = _mx(min([r[min(j, N - 1)]] + l[i:min(j, N - 1) + 1]) for j in range(i + a, i + b + 1))
+                    if op == 'unless':
+                        v = max(v, _mn(l[min(j, N - 1)] for j in range(i, i + b + 1)))
+                else:
+                    raise ValueError('dense: ' + op)
+                out.append(v)
+            return out
+        raise ValueError(f)
+
+    return K0, Kend, ev(f)
+
+
+def step_at(samples, t):
+    """Value at time t of the right-continuous step function denoted by a sample list (None before its start)."""
+    v = None
+    for s in samples:
+        if s[0] <= t:
+            v = s[1]
+        else:
+            break
+    return v
